@@ -339,7 +339,7 @@ func Replay(t *testing.T, props ...string) {
 		fn := registry[regKey(rf.Property, rf.Sub)]
 		regMu.Unlock()
 		if fn == nil {
-			t.Fatalf("replay %s: no runner registered for %s/%s", f, rf.Property, rf.Sub)
+			continue // belongs to another test binary serving the same property
 		}
 		n++
 		v := safely(func() *Violation { return fn(t, rf.Scenario) })
